@@ -7,6 +7,7 @@
 set -u
 id=$1; src=${2:-/tmp/wt/$id}
 dst=/verif/seeded/$id; mkdir -p $dst
+# ids like C05-r2 are stored under that name; scratch worktree names must not contain "/"
 cp $src/SEEDED/patch.diff $dst/patch.diff
 cp $src/SEEDED/notes.md $dst/notes.md 2>/dev/null
 cp $src/SEEDED/demo_cmd.txt $dst/demo_cmd.txt 2>/dev/null
